@@ -331,6 +331,10 @@ inductive Prog where
   | seq (p q : Prog)
   | scope (m : Mgr) (a : Arg) (p : Prog)
   | raise
+  /-- A manager entry (or any library call) that fails with exception `e` before changing anything:
+  re-entering an exhausted `@contextmanager` object, an argument the manager rejects, a `__new__`
+  that cannot be replaced. -/
+  | fail (e : String)
   | try_ (p : Prog)
   | probe (m : Mgr)
   /-- `c()` in the running thread, for a detour-kind manager `m`.  If the thread's current mapping
@@ -405,6 +409,7 @@ def exec (t : Nat) : Prog → World → Result
       let r := exec t p w1
       ⟨exit m sv st t r.world, r.outcome, r.obs⟩
   | .raise, w => ⟨w, .exc "Error", []⟩
+  | .fail e, w => ⟨w, .exc e, []⟩
   | .try_ p, w =>
     let r := exec t p w
     ⟨r.world, .normal, r.obs⟩
@@ -453,6 +458,7 @@ def execI (t : Nat) : Prog → Env → World → ResultI
       let (env2, w2) := interfere r.env r.world
       ⟨env2, exit m sv st t w2, r.outcome, r.obs⟩
   | .raise, env, w => ⟨env, w, .exc "Error", []⟩
+  | .fail e, env, w => ⟨env, w, .exc e, []⟩
   | .try_ p, env, w =>
     let r := execI t p env w
     ⟨r.env, r.world, .normal, r.obs⟩
@@ -473,7 +479,7 @@ def isLocal (m : Mgr) (a : Arg) : Bool := storageOf m a != .processWide
 
 /-- All scopes of the program are thread-local ones. -/
 def Prog.threadLocal : Prog → Bool
-  | .skip | .raise | .probe _ => true
+  | .skip | .raise | .fail _ | .probe _ => true
   | .seq p q => p.threadLocal && q.threadLocal
   | .scope m a p => isLocal m a && p.threadLocal
   | .try_ p => p.threadLocal
